@@ -6,6 +6,7 @@ import (
 	"fmt"
 	"os"
 	"path/filepath"
+	"strings"
 	"testing"
 	"time"
 
@@ -369,6 +370,17 @@ func TestC02(t *testing.T) {
 				}
 				step(last[0], last[1])
 			},
+			"caller-assigns-another-pool": func(t *rapid.T) {
+				// the caller replaces the TrustedRoots of a long-lived options value: from now on the new pool decides
+				i := rapid.IntRange(0, 1).Draw(t, "whichOptions")
+				if rapid.Bool().Draw(t, "toB") {
+					opts[i].o.TrustedRoots, opts[i].roots, opts[i].name = gen.PoolOf(b.PKI.Root), []*x509.Certificate{b.PKI.Root.X}, "pool-B"
+				} else {
+					opts[i].o.TrustedRoots, opts[i].roots, opts[i].name = gen.PoolOf(a.PKI.Root), []*x509.Certificate{a.PKI.Root.X}, "pool-A"
+				}
+				hist = append(hist, fmt.Sprintf("options #%d: TrustedRoots = %s", i, opts[i].name))
+				last = [2]int{-1, -1}
+			},
 			"caller-extends-a-pool-the-api-handed-out": func(t *rapid.T) {
 				// a caller that wants "the defaults plus my lab root" adds to whatever pool DefaultOptions() returns
 				// (nil on this tree: then there is nothing to add to and the caller builds its own pool)
@@ -396,7 +408,7 @@ func TestC02(t *testing.T) {
 		nFiles := rapid.IntRange(0, 2).Draw(t, "files")
 		nInline := rapid.IntRange(0, 2).Draw(t, "inline")
 		bundle := func(label string) string {
-			kind := rapid.SampledFrom([]string{"one", "one", "two", "with-comment", "empty", "non-pem", "pem-non-cert-only"}).Draw(t, label)
+			kind := rapid.SampledFrom([]string{"one", "one", "two", "with-comment", "empty", "non-pem", "pem-non-cert-only", "large-text-then-root", "root-large-text-root"}).Draw(t, label)
 			switch kind {
 			case "empty":
 				broken = "empty bundle"
@@ -418,6 +430,21 @@ func TestC02(t *testing.T) {
 			}
 			if kind == "with-comment" {
 				out = "# trusted root\n" + out + "\ntrailing text\n"
+			}
+			if kind == "large-text-then-root" || kind == "root-large-text-root" {
+				// a site-wide bundle with a lot of explanatory text (ca-certificates style): a listed certificate is
+				// listed wherever it stands in the file, also behind megabytes of other content
+				size := rapid.SampledFrom([]int{60000, 1<<20 - 2000, 1<<20 - 700, 1<<20 - 300, 1<<20 + 5, 2<<20 + 3, 5 << 20}).Draw(t, label+"-textBytes")
+				line := "# " + strings.Repeat("explanatory text ", 4) + "\n"
+				text := strings.Repeat(line, size/len(line)+1)[:size-1] + "\n"
+				if kind == "root-large-text-root" {
+					j := rapid.IntRange(0, 2).Draw(t, label+"-firstRoot")
+					listed[j] = true
+					out = string(pkis[j].Root.PEM) + text + out
+				} else {
+					out = text + out
+				}
+				gen.Class("rot:bundle-with-much-text-before-a-listed-root")
 			}
 			return out
 		}
